@@ -29,7 +29,8 @@ extern "C" uint64_t verif_rand_counter;   // engines/common/pin.cpp: the pinned 
 
 // ---------------------------------------------------------------- constants of the oracle
 static const long long kAllocA = 256, kAllocK = 64 * 1024;        // requested heap bytes during one parse of N bytes must stay <= a*N + K
-static const long long kNewCap = 64LL * 1024 * 1024;              // while a parse is metered a single operator-new request above this is refused (returns NULL)
+static const long long kNewCapMin = 4LL * 1024 * 1024;            // while a parse runs a single operator-new request above max(4 MiB, 64*N) is refused (returns NULL) -- far above the asserted bound
+static inline long long NewCap(size_t N) { return std::max<long long>(kNewCapMin, 64LL * (long long)N); }
 static volatile unsigned g_sink;
 static std::string g_tier = "quick";   // recorded in every case description: the index space depends on the tier (pair seeds)
 
@@ -42,17 +43,21 @@ struct ExactBuf {
    ~ExactBuf() { free(p); }
 };
 
+static const long long kMallocCap = 64LL * 1024 * 1024;   // ASAN_OPTIONS max_allocation_size_mb (see main): a larger malloc/calloc/realloc request returns NULL with errno=ENOMEM and is NOT seen by the malloc hook
+static int g_lastParseErrno = 0;
 static bool CheckAlloc(mutx::Case & c, size_t N)
 {
    const long long lim = kAllocA * (long long)N + kAllocK;
+   if (g_lastParseErrno == ENOMEM && c02::g_capHits == 0 && kMallocCap > lim) { c.Fail("alloc:single-request>256N+64K", verif::Fmt("parsing %llu bytes made a malloc-family request above %lld bytes (refused by the 64 MiB allocation cap, errno=ENOMEM; bound %lld)", (unsigned long long)N, kMallocCap, lim)); return false; }
    if (mutx::g_meter.biggest > lim) { c.Fail("alloc:single-request>256N+64K", verif::Fmt("parsing %llu bytes requested a single allocation of %lld bytes (peak %lld, bound %lld)", (unsigned long long)N, mutx::g_meter.biggest, mutx::g_meter.peak, lim)); return false; }
    if (mutx::g_meter.peak > lim) { c.Fail("alloc:peak>256N+64K", verif::Fmt("parsing %llu bytes held %lld requested bytes at peak (biggest single %lld, bound %lld)", (unsigned long long)N, mutx::g_meter.peak, mutx::g_meter.biggest, lim)); return false; }
    return true;
 }
 struct Metered {   // RAII: meter + operator-new cap around one parse call
-   Metered() { c02::g_capHits = 0; c02::g_allocCap = kNewCap; mutx::MeterBegin(); }
+   bool ended;
+   explicit Metered(size_t N) : ended(false) { c02::g_capHits = 0; c02::g_allocCap = NewCap(N); errno = 0; mutx::MeterBegin(); }
    ~Metered() { End(); }
-   void End() { mutx::MeterEnd(); c02::g_allocCap = 0; }
+   void End() { if (ended) return; ended = true; g_lastParseErrno = errno; mutx::MeterEnd(); c02::g_allocCap = 0; }
 };
 
 // a successfully parsed Message must be well-formed: FlattenedSize() == bytes Flatten() writes (the flattener aborts on a mismatch,
@@ -74,8 +79,10 @@ struct PartDef {
    std::string name, entry; std::vector<Seed> seeds; std::vector<MutSpace> spaces; std::vector<size_t> prefix;
    int modes; bool nest, shorts, bigEndianToo; size_t pairSeeds; RunFn run; std::function<std::string(const std::string &)> wrapNest;
    bool resetDocumented;   // gateway overrides Reset(): reuse after Reset() is asserted (else only observed)
+   std::vector<std::vector<uint8> > fatalSingle;   // [seed][wordIdx*20+valueIdx] = 1 if that single word mutation alone kills the process (pairs containing it are skipped)
+   size_t pairsSkipped;
    size_t seedCases, total;
-   PartDef() : modes(1), nest(false), shorts(false), bigEndianToo(false), pairSeeds(0), resetDocumented(false), seedCases(0), total(0) {}
+   PartDef() : modes(1), nest(false), shorts(false), bigEndianToo(false), pairSeeds(0), resetDocumented(false), pairsSkipped(0), seedCases(0), total(0) {}
    void Finish()
    {
       // pairs go to the `pairSeeds` seeds with the fewest structural words (ties: shortest)
@@ -87,14 +94,15 @@ struct PartDef {
       seedCases = prefix.back(); total = seedCases * (size_t)modes + (nest ? kNumNest : 0) + (shorts ? kNumShorts : 0);
    }
    // index -> concrete case
-   struct Concrete { int seed; int mode; bool dev0; int deviations; std::string in; std::vector<uint32> cuts; std::string desc; };
+   struct Concrete { int seed; int mode; bool dev0; int deviations; bool skip; std::string in; std::vector<uint32> cuts; std::string desc; };
    void Decode(size_t idx, Concrete & cc, bool wantInput = true) const
    {
-      cc.cuts.clear();
+      cc.cuts.clear(); cc.skip = false;
       if (idx < seedCases * (size_t)modes) {
          cc.mode = (int)(idx % (size_t)modes); const size_t k = idx / (size_t)modes;
          const size_t si = (size_t)(std::upper_bound(prefix.begin(), prefix.end(), k) - prefix.begin()) - 1; const size_t local = k - prefix[si];
          cc.seed = (int)si; cc.dev0 = (local == 0); cc.deviations = spaces[si].DeviationsOf(local);
+         if (cc.deviations == 2 && si < fatalSingle.size() && !fatalSingle[si].empty()) { size_t i, j; int vi, vj; if (spaces[si].PairParts(local, i, vi, j, vj) && (fatalSingle[si][i * kNumWordVals + vi] || fatalSingle[si][j * kNumWordVals + vj])) cc.skip = true; }
          std::string d; spaces[si].Decode(local, seeds[si], cc.in, d);
          const std::vector<uint32> & sc = seeds[si].cuts; for (size_t i = 0; i < sc.size(); i++) { uint32 e = std::min<uint32>(sc[i], (uint32)cc.in.size()); if (cc.cuts.empty() ? (e > 0) : (e > cc.cuts.back())) cc.cuts.push_back(e); }
          if (!sc.empty() && (cc.cuts.empty() || cc.cuts.back() < cc.in.size()) && !cc.in.empty()) cc.cuts.push_back((uint32)cc.in.size());
@@ -116,7 +124,7 @@ static void RunMsgUnflatten(const PartDef &, const Seed & seed, const std::strin
    ExactBuf eb(in);
    {
       Message m;
-      Phase("parse"); status_t st; { Metered mt; st = m.UnflattenFromBytes(eb.p, eb.n); }
+      Phase("parse"); status_t st; { Metered mt(eb.n); st = m.UnflattenFromBytes(eb.p, eb.n); }
       CheckAlloc(c, in.size());
       if (st.IsOK()) { c.Outcome("ok"); if (!CheckReflatten(m, c, "Message")) return; if (dev0 && FlatBytes(m) != seed.bytes) c.Fail("seed:round-trip-differs", "valid seed parsed but re-flattens differently"); }
       else {
@@ -136,7 +144,7 @@ static void RunMsgTemplated(const PartDef &, const Seed & seed, const std::strin
    ExactBuf eb(in);
    {
       Message m; const Message & T = *seed.tmpl();
-      Phase("parse"); status_t st; { Metered mt; DataUnflattener uf(eb.p, eb.n); st = m.TemplatedUnflatten(T, uf); }
+      Phase("parse"); status_t st; { Metered mt(eb.n); DataUnflattener uf(eb.p, eb.n); st = m.TemplatedUnflatten(T, uf); }
       CheckAlloc(c, in.size());
       if (st.IsOK()) {
          c.Outcome("ok"); if (!CheckReflatten(m, c, "TemplatedUnflatten")) return;
@@ -159,7 +167,7 @@ static void RunMiniUnflatten(const PartDef &, const Seed & seed, const std::stri
 {
    ExactBuf eb(in);
    MMessage * mm = MMAllocMessage(0); if (!mm) { c.Fail("infra:MMAllocMessage", "out of memory"); return; }
-   Phase("parse"); c_status_t st; { Metered mt; st = MMUnflattenMessage(mm, eb.p, eb.n); }
+   Phase("parse"); c_status_t st; { Metered mt(eb.n); st = MMUnflattenMessage(mm, eb.p, eb.n); }
    CheckAlloc(c, in.size());
    if (st == CB_NO_ERROR) {
       c.Outcome("ok"); Phase("reflatten"); const std::string o = MMFlat(mm);
@@ -245,11 +253,11 @@ static void RunMicroRead(const PartDef &, const Seed & seed, const std::string &
    if (!stage1Clean || c.failed) { c.Outcome("ok"); Phase("idle"); return; }
    // stage 2: the same input in an exact-size sanitizer-tracked heap block (catches what a guard page cannot: reads before the start, small strays); any report is fatal
    ExactBuf eb(in); UMessage um; memset(&um, 0, sizeof(um));
-   Phase("parse"); c_status_t st; { Metered mt; st = UMInitializeWithExistingData(&um, eb.p, eb.n); }
+   Phase("parse"); c_status_t st; { Metered mt(eb.n); st = UMInitializeWithExistingData(&um, eb.p, eb.n); }
    CheckAlloc(c, in.size());
    if (st == CB_NO_ERROR) {
       c.Outcome("ok"); Phase("field-walk"); long budget = 1000 + 4L * (long)in.size();
-      { Metered mt; if (!UMWalk(&um, 0, budget)) c.Fail("walk:field-iteration-does-not-end:field-walk", "field iteration exceeded 1000 + 4*N steps (a valid N-byte buffer has at most N/12 fields)"); }
+      { Metered mt(eb.n); if (!UMWalk(&um, 0, budget)) c.Fail("walk:field-iteration-does-not-end:field-walk", "field iteration exceeded 1000 + 4*N steps (a valid N-byte buffer has at most N/12 fields)"); }
       CheckAlloc(c, in.size());
    } else { c.Outcome("err"); if (dev0) c.Fail("seed:rejected", "valid seed rejected by UMInitializeWithExistingData"); }
    if (!dev0) { Phase("reuse"); ExactBuf sb(seed.bytes); long budget = 1000 + 4L * (long)seed.bytes.size(); if (UMInitializeWithExistingData(&um, sb.p, sb.n) != CB_NO_ERROR || !UMWalk(&um, 0, budget)) c.Fail("reuse:valid-seed-rejected", "UMessage object re-initialised with a valid encoding fails"); }
@@ -322,7 +330,7 @@ static std::map<std::string, GwKind> g_gw;
 
 static void RunStreamGateway(const PartDef & pd, const Seed & seed, const std::string & in, const std::vector<uint32> &, int mode, bool dev0, mutx::Case & c)
 {
-   const GwKind & gk = g_gw[pd.name]; ExactBuf eb(seed.prefix + in); c02::g_allocCap = kNewCap; const uint32 pfx = (uint32)seed.prefix.size();
+   const GwKind & gk = g_gw[pd.name]; ExactBuf eb(seed.prefix + in); c02::g_allocCap = NewCap(eb.n); const uint32 pfx = (uint32)seed.prefix.size();
    {
       ScriptIO io(eb.p, eb.n); Collect rx; verif_rand_counter = 0;
       AbstractMessageIOGatewayRef gw = gk.make(); gw()->SetDataIO(DummyDataIORef(io));
@@ -344,7 +352,7 @@ static void RunStreamGateway(const PartDef & pd, const Seed & seed, const std::s
 
 static void RunPacketGateway(const PartDef & pd, const Seed & seed, const std::string & in, const std::vector<uint32> & cuts, int, bool dev0, mutx::Case & c)
 {
-   const GwKind & gk = g_gw[pd.name]; c02::g_allocCap = kNewCap;
+   const GwKind & gk = g_gw[pd.name]; c02::g_allocCap = NewCap(in.size());
    {
       Queue<ConstByteBufferRef> pk; uint32 from = 0;
       for (size_t i = 0; i < cuts.size(); i++) { ByteBufferRef b = GetByteBufferFromPool(cuts[i] - from, (const uint8 *)in.data() + from); (void)b()->FreeExtraBytes(); (void)pk.AddTail(b); from = cuts[i]; }
@@ -588,6 +596,38 @@ static void BuildParts(bool thorough, verif::Result & res)
    (void)res;
 }
 
+// Deviation-2 pruning: a pair is only run if neither of its two word mutations kills the process by itself (such a mutation is reported at
+// deviation 1; thousands of pairs containing it would each cost a worker process and say nothing new).  Every single structural-word
+// mutation of every pair seed is run once in its own forked process here, in parallel, before the enumeration.
+static void ComputeFatalSingles(PartDef & pd, int workers)
+{
+   struct Unit { size_t seed, word; }; std::vector<Unit> units;
+   for (size_t si = 0; si < pd.seeds.size(); si++) if (pd.spaces[si].nPair) for (size_t w = 0; w < pd.spaces[si].pairOffs.size(); w++) { Unit u; u.seed = si; u.word = w; units.push_back(u); }
+   pd.fatalSingle.assign(pd.seeds.size(), std::vector<uint8>()); for (size_t si = 0; si < pd.seeds.size(); si++) if (pd.spaces[si].nPair) pd.fatalSingle[si].assign(pd.spaces[si].pairOffs.size() * kNumWordVals, 0);
+   if (units.empty()) return;
+   std::vector<verif::ParRecord> out;
+   verif::ParMap(units.size(), workers, [&](size_t u, std::string & rec) {
+      const size_t si = units[u].seed, w = units[u].word; rec.assign(kNumWordVals, '\0');
+      for (int vi = 0; vi < kNumWordVals; vi++) {
+         fflush(stdout); fflush(stderr); const pid_t pid = fork();
+         if (pid == 0) {
+            const int dn = open("/dev/null", O_WRONLY); if (dn >= 0) { dup2(dn, 2); close(dn); }
+            struct itimerval itv; memset(&itv, 0, sizeof(itv)); itv.it_value.tv_sec = 5; signal(SIGVTALRM, SIG_DFL); setitimer(ITIMER_VIRTUAL, &itv, NULL);
+            std::string in; pd.spaces[si].SingleOf(pd.seeds[si], w, vi, in); std::vector<uint32> cuts;
+            for (int mode = 0; mode < pd.modes; mode++) { mutx::Case c; pd.run(pd, pd.seeds[si], in, cuts, mode, false, c); c02::g_allocCap = 0; }
+            _exit(0);
+         }
+         int st = 0; if (pid > 0) waitpid(pid, &st, 0); rec[vi] = (pid > 0 && WIFEXITED(st) && WEXITSTATUS(st) == 0) ? 0 : 1;
+      }
+   }, out);
+   for (size_t k = 0; k < out.size(); k++) { const Unit & u = units[out[k].idx]; for (int vi = 0; vi < kNumWordVals && vi < (int)out[k].data.size(); vi++) pd.fatalSingle[u.seed][u.word * kNumWordVals + vi] = (uint8)out[k].data[vi]; }
+   // exact number of pair cases that will be skipped
+   pd.pairsSkipped = 0;
+   for (size_t si = 0; si < pd.seeds.size(); si++) if (pd.spaces[si].nPair) { const std::vector<uint8> & f = pd.fatalSingle[si]; const size_t P = pd.spaces[si].pairOffs.size();
+      for (size_t i = 0; i < P; i++) for (size_t j = i + 1; j < P; j++) for (int vi = 0; vi < kNumWordVals; vi++) for (int vj = 0; vj < kNumWordVals; vj++) if (f[i * kNumWordVals + vi] || f[j * kNumWordVals + vj]) pd.pairsSkipped++; }
+   pd.pairsSkipped *= (size_t)pd.modes;
+}
+
 // stable key: <part>:<engine or oracle key>; a stack overflow ends in whichever frame of the recursion hits the guard page, so the frame is dropped
 static std::string NormalizeKey(const std::string & part, const std::string & k)
 {
@@ -600,16 +640,16 @@ int main(int argc, char ** argv)
    // the sanitizer option that bounds a single malloc cannot be set from inside a running process: re-exec once with it set (see report)
    if (getenv("C02_ASAN_OPTS_SET") == NULL) {
       // enumeration runs unsymbolized (llvm-symbolizer costs ~0.2 s per dying case); --replay keeps the symbolized report
-      bool isReplayRun = false; for (int i = 1; i < argc; i++) if (strcmp(argv[i], "--replay") == 0) isReplayRun = true;
-      const char * old = getenv("ASAN_OPTIONS"); std::string o = (old && *old) ? (std::string(old) + ":") : std::string(); o += "max_allocation_size_mb=256"; if (!isReplayRun) o += ":symbolize=0";
+      bool isReplayRun = false; for (int i = 1; i < argc; i++) if (strcmp(argv[i], "--replay") == 0 || strcmp(argv[i], "--hex") == 0) isReplayRun = true;
+      const char * old = getenv("ASAN_OPTIONS"); std::string o = (old && *old) ? (std::string(old) + ":") : std::string(); o += "max_allocation_size_mb=64"; if (!isReplayRun) o += ":symbolize=0";
       setenv("ASAN_OPTIONS", o.c_str(), 1);
       if (!isReplayRun) { const char * ou = getenv("UBSAN_OPTIONS"); std::string u = (ou && *ou) ? (std::string(ou) + ":") : std::string(); u += "symbolize=0"; setenv("UBSAN_OPTIONS", u.c_str(), 1); } setenv("C02_ASAN_OPTS_SET", "1", 1); execv("/proc/self/exe", argv); perror("execv"); return 3;
    }
    verif::Args args; args.Parse(argc, argv); verif::Result res; res.harness = "C02_parsers";
    (void)SetConsoleLogLevel(MUSCLE_LOG_NONE);
    c02::InstallDeathAttribution();
-   g_contain = args.replay.empty();
-   if (args.replay.empty()) { if (!freopen("/dev/null", "w", stdout)) {} }   // the C codecs printf() diagnostics on bad input; results go to --out
+   g_contain = args.replay.empty() && !args.kv.count("hex");
+   if (g_contain) { if (!freopen("/dev/null", "w", stdout)) {} }   // the C codecs printf() diagnostics on bad input; results go to --out
 
    std::string replayPart; size_t replayIndex = 0; bool thorough = args.Thorough();
    if (!args.replay.empty()) { verif::ReplayDoc d; if (!d.Load(args.replay)) { fprintf(stderr, "cannot read %s\n", args.replay.c_str()); return 3; } replayPart = d.Str("part"); replayIndex = (size_t)d.Int("index"); if (d.Str("tier") == "thorough") thorough = true; }
@@ -626,15 +666,28 @@ int main(int argc, char ** argv)
          if (round == 1 && pi < 4) { const long long pk1 = mutx::g_meter.peak, pk2 = mutx::g_meter.biggest; const long long pk = std::max(pk1, pk2); const double ratio = (double)pk / (double)std::max<size_t>(1, pd.seeds[si].bytes.size()); if (pk > calMaxPeak) calMaxPeak = pk; if (ratio > calMaxRatio) { calMaxRatio = ratio; calWorst = pd.name + "/" + pd.seeds[si].name; } }
       } }
 
+   // ad-hoc: run one arbitrary input on one part in this process:  --part NAME --hex BYTES [--mode 0|1] [--seedname NAME]
+   if (args.kv.count("hex")) {
+      std::string in; if (!verif::UnHex(args.kv["hex"], in)) { fprintf(stderr, "bad --hex\n"); _exit(3); }
+      g_contain = false;
+      for (size_t pi = 0; pi < g_parts.size(); pi++) if (g_parts[pi].name == args.part) {
+         const PartDef & pd = g_parts[pi]; size_t si = 0; for (size_t k = 0; k < pd.seeds.size(); k++) if (pd.seeds[k].name == args.kv["seedname"]) si = k;
+         std::vector<uint32> cuts; if (!pd.seeds[si].cuts.empty()) cuts.push_back((uint32)in.size());
+         mutx::Case c; pd.run(pd, pd.seeds[si], in, cuts, atoi(args.kv["mode"].c_str()), false, c);
+         fprintf(stderr, "part=%s seed(for reuse)=%s len=%u outcome: %s result: %s %s %s\n", pd.name.c_str(), pd.seeds[si].name.c_str(), (unsigned)in.size(), c.outcome.c_str(), c.failed ? "VIOLATION" : "OK", c.failed ? NormalizeKey(pd.name, c.key).c_str() : "", c.msg.c_str()); _exit(c.failed ? 1 : 0);
+      }
+      fprintf(stderr, "unknown --part\n"); _exit(3);
+   }
    const bool isReplay = !args.replay.empty();
    // ---- tier-dependent part list; deadline split evenly over the remaining parts
    size_t nRun = 0; for (size_t pi = 0; pi < g_parts.size(); pi++) if (args.WantPart(g_parts[pi].name)) nRun++;
    size_t done = 0;
    for (size_t pi = 0; pi < g_parts.size(); pi++) {
-      const PartDef & pd = g_parts[pi];
+      PartDef & pd = g_parts[pi];
       if (isReplay ? (pd.name != replayPart) : !args.WantPart(pd.name)) continue;
+      if (!isReplay) ComputeFatalSingles(pd, args.workers);
       mutx::Runner R(args, res, pd.name); R.SetCpuLimit(5.0);
-      mutx::CaseFn fn = [&pd](size_t i, mutx::Case & c) { PartDef::Concrete cc; pd.Decode(i, cc); pd.run(pd, pd.seeds[cc.seed], cc.in, cc.cuts, cc.mode, cc.dev0, c); c02::g_allocCap = 0; };
+      mutx::CaseFn fn = [&pd](size_t i, mutx::Case & c) { PartDef::Concrete cc; pd.Decode(i, cc); if (cc.skip) { c.Outcome("pair skipped: one of its two mutations is fatal by itself (reported at deviation 1)"); return; } pd.run(pd, pd.seeds[cc.seed], cc.in, cc.cuts, cc.mode, cc.dev0, c); c02::g_allocCap = 0; };
       mutx::DescFn desc = [&pd](size_t i) { PartDef::Concrete cc; pd.Decode(i, cc); return cc.desc; };
       if (isReplay) { if (replayIndex >= pd.total) { fprintf(stderr, "index out of range for part %s (tier mismatch? pass --tier thorough)\n", pd.name.c_str()); return 3; } printf("replay part=%s case %llu: %s\n", pd.name.c_str(), (unsigned long long)replayIndex, desc(replayIndex).c_str()); fflush(stdout);
          struct itimerval itv; memset(&itv, 0, sizeof(itv)); itv.it_value.tv_sec = 50; signal(SIGVTALRM, SIG_DFL); setitimer(ITIMER_VIRTUAL, &itv, NULL);   // same watchdog as the engine's confirmation run (10 x 5 s CPU)
@@ -646,21 +699,23 @@ int main(int argc, char ** argv)
       const size_t v0 = res.violations.size();
       verif::Part & part = R.Run(pd.total, fn, desc);
       for (size_t v = v0; v < res.violations.size(); v++) res.violations[v].key = NormalizeKey(pd.name, res.violations[v].key);
+      if (!part.exhaustive && part.transitions >= pd.total) { part.exhaustive = true; part.cap = ""; }   // engine quirk: a fatal case at the very end of a stride leaves its "complete" flag false although every index was run
+      if (part.exhaustive) { part.transitions -= std::min<uint64_t>(part.transitions, pd.pairsSkipped); part.evaluations = part.transitions; }   // skipped pairs are not executions
+      part.extra["pair_cases_skipped_because_one_component_is_fatal_alone"] = verif::Fmt("%llu", (unsigned long long)pd.pairsSkipped);
       size_t nPairSeeds = 0, nPairs = 0, nSingles = 0; for (size_t si = 0; si < pd.spaces.size(); si++) { if (pd.spaces[si].nPair) nPairSeeds++; nPairs += pd.spaces[si].nPair; nSingles += pd.spaces[si].Count() - pd.spaces[si].nPair; }
       size_t minLen = (size_t)-1, maxLen = 0; for (size_t si = 0; si < pd.seeds.size(); si++) { minLen = std::min(minLen, pd.seeds[si].bytes.size()); maxLen = std::max(maxLen, pd.seeds[si].bytes.size()); }
       part.rule = "entry point: " + pd.entry + verif::Fmt(". %d valid seed encodings (%u..%u bytes) built by the real encoders; per seed: the seed itself (must parse and round-trip), every truncation 0..N-1, every byte offset x 20 word values {0,1,len-1,len,len+1,2^31-1,2^31,2^32-8..2^32-1,orig-1,orig+1,orig+4,remaining,remaining+1}%s, every type-code word x 20 type codes (incl. B_POINTER_TYPE,B_TAG_TYPE,B_ANY_TYPE,0), every byte x {00,01,7F,80,FF}, every NUL terminator deleted",
                         (int)pd.seeds.size(), (unsigned)minLen, (unsigned)maxLen, pd.bigEndianToo ? " in little- and big-endian order" : " (little-endian)")
-                + verif::Fmt("; every PAIR of word mutations (20x20 values) over the structural words of %u seed(s) [%llu pair cases, %llu single-deviation cases]", (unsigned)nPairSeeds, (unsigned long long)nPairs, (unsigned long long)nSingles)
+                + verif::Fmt("; every PAIR of word mutations (20x20 values) over the structural words of %u seed(s) [%llu pair cases x deliveries, of which %llu are not run because one of the two mutations already kills the process by itself (reported at deviation 1); %llu single-deviation cases]", (unsigned)nPairSeeds, (unsigned long long)nPairs, (unsigned long long)pd.pairsSkipped, (unsigned long long)nSingles)
                 + (pd.modes == 2 ? "; every mutated stream delivered whole and one byte at a time (x2)" : "") + (pd.nest ? "; Message-in-Message chains of depth 1,2,16,256,4096,65536" : "") + (pd.shorts ? "; all byte strings of length <=2 and of length 3..4 over {00,01,04,FF,'P','M'}" : "")
                 + ". A case is distinct by (seed, mutation, delivery); case index decodes to it. Oracle: no ASan/UBSan report, abort, signal or CPU-watchdog (5 s, x10 on confirmation); result = error status or object that re-flattens consistently; failed object reusable"
                 + (pi < 4 ? verif::Fmt("; requested heap bytes during the parse <= %lld*N + %lld (pools warmed)", kAllocA, kAllocK) : "") + ".";
-      if (!part.exhaustive && part.transitions >= pd.total) { part.exhaustive = true; part.cap = ""; }   // engine quirk: a fatal case at the very end of a stride leaves its "complete" flag false although every index was run
       part.bound_completed = part.exhaustive ? (nPairs ? 2 : 1) : 0;
       part.extra["deviation_bound"] = verif::Fmt("\"1 everywhere%s\"", nPairs ? ", 2 over structural words of the pair seeds" : "");
       done++;
    }
    res.observations.push_back(verif::Fmt("allocation calibration on the valid seeds of the four Message parsers (pools warm): max requested bytes during one parse = %lld, max ratio requested/N = %.1f (%s); asserted bound a=%lld, K=%lld", calMaxPeak, calMaxRatio, calWorst.c_str(), kAllocA, kAllocK));
-   res.observations.push_back("environment assumption: a single malloc above 256 MiB fails (ASAN_OPTIONS max_allocation_size_mb=256, set by re-exec) and a single operator-new request above 64 MiB fails while a Message parse is metered; the request is still counted by the meter");
+   res.observations.push_back("environment assumption: a single malloc above 64 MiB fails (ASAN_OPTIONS max_allocation_size_mb=64, set by re-exec) and a single operator-new request above max(4 MiB, 64*N) fails while a parser runs; the request is still counted by the meter");
    const int rc = res.Write(args);
    g_parts.clear(); g_gw.clear();   // release the seed Messages before the library's static object pools are destroyed
    return rc;
